@@ -1078,13 +1078,15 @@ func (r *walRun) run() string {
 		case "?":
 			// fault modes, in force while a counted fault is armed: 1 every deletion
 			// fails, 2 the next directory listing fails, 4 a creation hit by the counted
-			// fault leaves the empty file behind
+			// fault leaves the empty file behind, 8 a CommitState / SetStable hit by the
+			// counted fault takes effect and returns the error
 			fl := parseU(ops[i+1])
 			i++
 			if r.cfs != nil {
 				r.cfs.failDeletes = fl&1 != 0
 				r.cfs.failList = fl&2 != 0
 				r.cfs.createLeaves = fl&4 != 0
+				r.cfs.commitLands = fl&8 != 0
 				if fl != 0 {
 					r.faulted = true
 					r.everFaulted = true
@@ -1094,7 +1096,7 @@ func (r *walRun) run() string {
 		case "~":
 			if r.cfs != nil {
 				r.cfs.faultIn = -1
-				r.cfs.failDeletes, r.cfs.failList, r.cfs.createLeaves = false, false, false
+				r.cfs.failDeletes, r.cfs.failList, r.cfs.createLeaves, r.cfs.commitLands = false, false, false, false
 			}
 			record = false
 		case "Q":
